@@ -510,7 +510,14 @@ def run(scen):
         if tee:
             _tee_connect(ws, trace)
 
+        positional = pk.pop('positional', False)
+
         def make_gen():
+            if positional:
+                # the documented order, every argument by position
+                return persist(ws, pk.get('poll', 5), pk.get('min_wait', 5),
+                               pk.get('max_wait', 30), pk.get('ping_rate', 30),
+                               pk.get('ping_timeout'), exit_event)
             return persist(ws, exit_event=exit_event, **pk)
     else:
         def make_gen():
